@@ -549,6 +549,14 @@ def method_of(I, obj, name):
         impl = I.lib.get("str." + name)
         if impl is not None:
             return BM(obj, B("str." + name, impl))
+    from .arrays2d import S2D as _S2D
+    if isinstance(obj, _S2D) and name == "shape":
+        if obj.rowmask is not None:
+            # number of rows kept = size of any of its (row-selected) columns
+            return (arr_size(I, obj.column(0)), obj.ncols)
+        return (obj.nrows, obj.ncols)
+    if isinstance(obj, _S2D) and name == "ndim":
+        return 2
     if isinstance(obj, (SArray, SCompressed)):
         if name == "size":
             return arr_size(I, obj)
